@@ -668,10 +668,18 @@ pub fn run_case(line: &str) -> (String, Vec<String>) {
     };
     let base = run_parser(mk(scheds[0].1.clone()), scheds[0].2);
     let base_text = base.text(false);
+    let mut variant_note = String::new();
     for (name, ev, chunk) in scheds.iter().skip(1) {
         let o = run_parser(mk(ev.clone()), *chunk).text(false);
         if o != base_text {
             fails.push(format!("C01:result depends on the read schedule: one-shot={} {}={}", base_text, name, o));
+            variant_note = format!("|VARIANT:{}={}", name, o.chars().take(160).collect::<String>());
+            {
+                let vfin = o.rsplit('|').next().unwrap_or("");
+                if vfin.starts_with("E:syn:") && base.fin.starts_with("E:syn:") && vfin != base.fin {
+                    fails.push(format!("C08:error location depends on how the bytes arrive: one-shot {} but {} {}", base.fin, name, vfin));
+                }
+            }
             fails.extend(crate::eng_cnf::variant_oracles(&delivered, fault, name, &o, c.expect.as_ref(), c.tok, true));
             break;
         }
@@ -751,5 +759,5 @@ pub fn run_case(line: &str) -> (String, Vec<String>) {
             }
         }
     }
-    (base_text, fails)
+    (base_text + &variant_note, fails)
 }
